@@ -18,7 +18,10 @@ from vf.props import c07
 
 ID = "C10"
 LEVEL = "exploration"
-RULE = ("level 1.1 and 1.5 products (2 images) on local paths / file:// URLs; breadth-first: every sequence of two operations "
+RULE = ("(operations also include wiping the product's cache directory / the cache root and tearing existing index files to a prefix; eight scripted "
+        "sequences such as create -> wipe -> create -> use and cli -> tear -> default opens; one fresh-process scenario per level whose user cache "
+        "location cannot be created; worlds carry constant / slowly drifting per-line columns) "
+        "level 1.1 and 1.5 products (2 images) on local paths / file:// URLs; breadth-first: every sequence of two operations "
         "(16 x 16) from the empty cache state; random sequences of length 8 (quick) / 30 (thorough); module state, default "
         "arguments and fsspec instance caches accumulate across all sequences of a case. evaluations = steps; non-trivial = "
         "step executed in a cache state other than 'no cache'; distinct = distinct (operation, abstract cache state before) pairs")
